@@ -1,6 +1,7 @@
 package main
 
 import (
+	"go/token"
 	"strings"
 
 	"golang.org/x/tools/go/ssa"
@@ -79,23 +80,45 @@ func init() {
 		setup := o.Fn("(*am/app.App).setup")
 		min, ok := e.ConstInt("am/notify", "MinTimeout")
 		o.Require(ok, "min", "notify.MinTimeout not found", nil)
-		found := false
-		for _, a := range Anons(setup) {
-			rs := (&Walk{Fn: a}).FromEntry().Returns()
-			if len(rs) != 1 || len(rs[0].Results) != 1 {
-				continue
-			}
-			x := e.X(a, rs[0].Results[0])
-			if strings.HasPrefix(x, "(phi("+itoa(int(min))+"|p0) + dyn(fn=") {
-				found = true
-				o.Site(rs[0], "timeout = max(d, MinTimeout) + wait()")
-				o.Check(strings.Contains(x, "am/app.clusterWait("), "timeout-wait", "the flush deadline must be extended by the same cluster wait the pipeline uses", rs[0])
-				// the MinTimeout floor: p0 < MinTimeout selects the constant
-				lit := L("(p0 < "+itoa(int(min))+")", true)
-				o.Check(e.CountLitEdges(a, lit)+e.CountLitEdges(a, lit.Neg()) > 0, "timeout-floor", "the flush deadline must not be shorter than MinTimeout", rs[0])
+		// the function the reloader is given as timeoutFunc: max(d, MinTimeout) + wait(), with the wait function the
+		// pipeline is given as waitFunc
+		unfree := func(s string) string { return strings.ReplaceAll(s, "^", "") }
+		tfs := e.StoresToField(setup, "am/app.reloader", "timeoutFunc")
+		wfs := e.StoresToField(setup, "am/app.reloader", "waitFunc")
+		if o.Check(len(tfs) == 1 && len(wfs) == 1, "timeout-func", "setup must hand one timeout function and one wait function to the reloader", nil) {
+			tfn := e.FuncValue(tfs[0].Val)
+			waitX := unfree(e.X(setup, wfs[0].Val))
+			if o.Check(tfn != nil && len(tfn.Blocks) > 0, "timeout-func", "the timeout function handed to the reloader cannot be resolved", tfs[0]) {
+				rs := (&Walk{Fn: tfn}).FromEntry().Returns()
+				if o.Check(len(rs) == 1 && len(rs[0].Results) == 1, "timeout-shape", "the timeout function must be a single expression", fnFirst(tfn)) {
+					o.Site(rs[0], "timeout = max(d, MinTimeout) + wait()")
+					ms := itoa(int(min))
+					sum, isSum := rs[0].Results[0].(*ssa.BinOp)
+					if o.Check(isSum && sum.Op == token.ADD, "timeout-shape", "the flush deadline must be max(d, MinTimeout) + wait(), is "+clip(e.X(tfn, rs[0].Results[0])), rs[0]) {
+						var base ssa.Value
+						var call *ssa.Call
+						for _, side := range []ssa.Value{sum.X, sum.Y} {
+							if c, ok := side.(*ssa.Call); ok && !isBuiltinCall("max")(c) {
+								call = c
+							} else {
+								base = side
+							}
+						}
+						if o.Check(base != nil && call != nil, "timeout-shape", "the flush deadline must be max(d, MinTimeout) + wait()", rs[0]) {
+							bx := e.X(tfn, base)
+							floorOK := bx == "max(p0, "+ms+")" || bx == "max("+ms+", p0)"
+							if bx == "phi("+ms+"|p0)" || bx == "phi(p0|"+ms+")" {
+								lit := L("(p0 < "+ms+")", true)
+								floorOK = e.CountLitEdges(tfn, lit)+e.CountLitEdges(tfn, lit.Neg()) > 0
+							}
+							o.Check(floorOK, "timeout-floor", "the flush deadline must not be shorter than MinTimeout, its base is "+clip(bx), rs[0])
+							gx := unfree(e.X(tfn, call.Call.Value))
+							o.Check(len(call.Call.Args) == 0 && (gx == waitX || strings.Contains(waitX, gx) && strings.Contains(gx, "am/app.clusterWait(")), "timeout-wait", "the flush deadline must be extended by the same cluster wait the pipeline uses ("+clip(waitX)+"), uses "+clip(gx), rs[0])
+						}
+					}
+				}
 			}
 		}
-		o.Check(found, "timeout-func", "no timeout function of the form max(d, MinTimeout) + wait() found in app.setup", nil)
 		pos := o.Fn("(*am/cluster.Peer).Position")
 		srt := o.One(e.Calls(pos, "sort.Slice"), "pos-sort", "Position must sort the members (all instances must agree on the ranking)", pos)
 		o.Site(srt, "members sorted")
